@@ -272,7 +272,11 @@ func (e *vsEnv) upload(c *vsClient, a *vsAttempt) {
 			// protocol violation: an unexpected form field (sent through the same multipart stream)
 			sim.Yield("client:badfield")
 			r.Fault("unexpected-form-field")
-			vsWriteField(u, "bogus", "1")
+			if a.fault.Stick {
+				u.VerifWriteFileField("bogus", "extra.txt", "BenchmarkBogus 1 1 ns/op\n") // a field of another name that looks like a file
+			} else {
+				vsWriteField(u, "bogus", "1")
+			}
 		}
 		if a.fault.Kind == "abort" && a.fault.File == i && a.fault.Pos == 0 {
 			r.Fault("client-abort")
@@ -348,7 +352,11 @@ func (e *vsEnv) upload(c *vsClient, a *vsAttempt) {
 		if a.fault.Kind == "badfield" && a.fault.File >= len(a.files) {
 			sim.Yield("client:badfield")
 			r.Fault("unexpected-form-field")
-			vsWriteField(u, "bogus", "1")
+			if a.fault.Stick {
+				u.VerifWriteFileField("bogus", "extra.txt", "BenchmarkBogus 1 1 ns/op\n")
+			} else {
+				vsWriteField(u, "bogus", "1")
+			}
 		}
 		sim.Yield("client:commit")
 		a.committed = true
@@ -840,7 +848,7 @@ func (e *vsEnv) genAttempt(faultsOn bool, force *vsFault) *vsAttempt {
 		e.r.Hit("record with more labels than one insert batch holds")
 	}
 	for i := 0; i < nf; i++ {
-		name := []string{"bench.txt", "a/b/c.txt", "", `win\path.txt`, "new.txt", "old.txt"}[T.Intn(6, "fname")]
+		name := []string{"bench.txt", "a/b/c.txt", "", `win\path.txt`, "new.txt", "old.txt", "load-50%d.txt", "100%.txt", "%s%v%!"}[T.Intn(9, "fname")]
 		a.files = append(a.files, vsFileSpec{name: name, text: vsGenFile(T, opts), qp: force == nil && T.Intn(15, "quoted-printable") == 0})
 	}
 	if force != nil {
@@ -859,6 +867,7 @@ func (e *vsEnv) genAttempt(faultsOn bool, force *vsFault) *vsAttempt {
 		switch a.fault.Kind {
 		case "badfield":
 			a.fault.File = T.Intn(nf+1, "badfield-at")
+			a.fault.Stick = T.Bool("badfield-with-filename")
 		case "abort":
 			if T.Bool("abort-mid-file") {
 				a.fault.Pos = 1 + T.Intn(len(a.files[a.fault.File].text)+1, "abort-pos")
